@@ -130,12 +130,17 @@ def plan_c01(K, ctx):
     # adversarial names derived from the vocabulary (known finding F7 lives here)
     K.parallel([(lambda f=f: K.pipeline(ctx, f, "c01names", "MC_Names", ncfg, "J_C01", nontrivial_value, workers=5,
                                         shards=6 if ctx.tier == "thorough" else 3)) for f in K.FORMATS])
-    ctx.exhaustive = ctx.tier == "thorough"
+    # M7: deeply nested and long values from the term-builder machine, TLC simulation mode
+    dcfg = ("SPECIFICATION Spec\n" + consts(MAXD=64, LONGN=60) + "INVARIANT Emit\nINVARIANT ModelRoundTrip\nCHECK_DEADLOCK FALSE\n")
+    K.parallel([(lambda f=f: K.pipeline(ctx, f, "c01deep", "MC_Deep", dcfg, "J_C01", nontrivial_value, workers=4,
+                                        simulate=(3 if ctx.tier == "quick" else 30, 66), shards=4)) for f in K.FORMATS])
+    ctx.exhaustive = False
     return {
         "note": "EnumFormat.tla + EnumParser.tla (M1) on the dumped vocabulary: model round trip checked by TLC for every value of U1 (all 30 "
                 "constructors over a 4-atom pool, every image index), the atoms, images with late placeholders, a seeded sample (quick) or all "
                 "(thorough) of the depth-2 universe U2r and the sentence/task envelopes (4 punctuations x 9 stamps incl. isize extremes x truths x "
-                "budgets x 9 junction terms); each value formatted and re-parsed by the real code in all three formats, judged by J_C01.",
+                "budgets x 9 junction terms); adversarial names derived from the vocabulary (MC_Names); nesting depth 64 and 60-component compounds from "
+                "the term-builder machine MC_Deep in TLC simulation mode; each value formatted and re-parsed by the real code in all three formats, judged by J_C01.",
         "rule": "one case = (value, format); non-trivial = a compound/statement term, or any sentence/task; distinct = distinct command JSON",
         "assumptions": TRUSTED + ["names are drawn from a pool that contains no keyword of the format under test (adversarial names: separate stage)"],
     }
@@ -452,6 +457,7 @@ def plan_c03(K, ctx):
     cfg2 = ("SPECIFICATION Spec\n" + consts(TIER=f'"{ctx.tier}"', SEEDS=16, SEED=ctx.seed) + "INVARIANT Meaning\nINVARIANT Emit\nCHECK_DEADLOCK FALSE\n")
 
     ncfg = ("SPECIFICATION Spec\n" + consts(TIER=f'"{ctx.tier}"', SEEDS=16, SEED=ctx.seed) + "INVARIANT Emit\nCHECK_DEADLOCK FALSE\n")
+    dcfg = ("SPECIFICATION Spec\n" + consts(MAXD=64, LONGN=60) + "INVARIANT Emit\nINVARIANT ModelRoundTrip\nCHECK_DEADLOCK FALSE\n")
 
     def to_pipe_v(c):
         c["op"] = "pipe_v"
@@ -465,6 +471,7 @@ def plan_c03(K, ctx):
             K.run_mc(ctx, "MC_C01", cfg1, fmt, f"c03_{fmt}_values_mc", cmds, workers=5, transform=to_pipe_v)
             K.run_mc(ctx, "MC_C10", cfg2, fmt, f"c03_{fmt}_sugar_mc", cmds, workers=5)
             K.run_mc(ctx, "MC_Names", ncfg, fmt, f"c03_{fmt}_names_mc", cmds, workers=5, transform=to_pipe_v)
+            K.run_mc(ctx, "MC_Deep", dcfg, fmt, f"c03_{fmt}_deep_mc", cmds, workers=4, transform=to_pipe_v, simulate=(3 if quick else 30, 66))
             lines = sorted(set(x for x in open(cmds, encoding="utf-8").read().split("\n") if x))
             open(cmds, "w", encoding="utf-8").write("".join(l + "\n" for l in lines))
             K.account(ctx, cmds, lambda c: c["op"] == "pipe" or nontrivial_value(c))
